@@ -40,6 +40,7 @@ func planFor(prop, tier string) plan {
 			{K: "create", A: "A", R: 3, X: 0, Y: 1000000},
 			{K: "create", A: "B", R: 4, X: 1000000000, Y: 3},
 			{K: "create", A: "A", R: 5, X: 1, Y: 1},
+			{K: "create", A: "B", R: 5, X: 1000000, Y: 1000000},
 		}
 		if full {
 			ops = append(ops,
@@ -52,12 +53,12 @@ func planFor(prop, tier string) plan {
 		}
 		return ops
 	}
-	p := plan{Configs: base, Seeds: []string{"init", "empty", "overlap", "gap", "ontick"}}
+	p := plan{Configs: base, Seeds: []string{"init", "empty", "overlap", "gap", "ontick", "inccross"}}
 	quick := tier != "thorough"
 	switch prop {
 	case "C07", "C01":
 		p.Alpha = Alphabet{Creates: creates(!quick), Adds: [][2]int64{{1000, 1000}}, Withdraws: [][2]int64{{1, 3}, {1, 1}},
-			SwapIn: []int64{1, 999, 400000, 30000000}, SwapOut: []int64{1, 250000}, Ticks: []int{0}}
+			SwapIn: []int64{1, 999, 400000, 30000000}, SwapOut: []int64{1, 250000}, Ticks: []int{0}, CrossSwaps: true}
 		if prop == "C01" {
 			p.Alpha.Claims = true
 			p.Alpha.Incentive = true
@@ -80,8 +81,8 @@ func planFor(prop, tier string) plan {
 		}
 	case "C08":
 		p.Alpha = Alphabet{Creates: creates(!quick), Adds: [][2]int64{{1000, 1000}}, Withdraws: [][2]int64{{1, 3}, {1, 1}},
-			SwapIn: []int64{999, 400000, 30000000}, SwapOut: []int64{250000}, Claims: true, Transfer: true, Incentive: true, Ticks: []int{0, 1, 2}}
-		p.Seeds = []string{"init", "twins", "gap", "overlap", "ontick"}
+			SwapIn: []int64{999, 400000, 30000000}, SwapOut: []int64{250000}, Claims: true, Transfer: true, Incentive: true, Ticks: []int{0, 1, 2}, CrossSwaps: true}
+		p.Seeds = []string{"init", "twins", "gap", "overlap", "ontick", "inccross"}
 		if quick {
 			p.Depth, p.SeedDep = 3, 2
 			p.Configs = []Config{p.Configs[0], {TickSpacing: 1, SpreadFactor: "0.002", Scaled: false, First0: 1000000, First1: 5000000000, RangeUnit: 50}}
@@ -131,7 +132,12 @@ func seedOps(name string, cfg Config) []Op {
 		return []Op{first}
 	case "overlap":
 		return []Op{first, {K: "create", A: "B", R: 1, X: cfg.First0, Y: cfg.First1}, {K: "create", A: "B", R: 4, X: cfg.First0, Y: cfg.First1},
+			{K: "incentive", X: 1000000, Y: 10, D: 0},
 			{K: "swapin", D: 0, X: cfg.First0 / 3}, {K: "tick", D: 0}, {K: "swapin", D: 1, X: cfg.First1 / 2}}
+	case "inccross":
+		// a short-lived incentive that has not emitted anything yet, and a second position whose range starts
+		// one bucket above the price: advancing time and then crossing into it is two operations away
+		return []Op{first, {K: "create", A: "B", R: 2, X: cfg.First0, Y: 0}, {K: "incentive", X: 3700, Y: 1, D: 0}}
 	case "ontick":
 		// deep liquidity, then a fee-paying swap so small that the price stays inside the initial tick: the next
 		// position created with a boundary exactly on the current tick meets non-zero accumulated growth
